@@ -378,6 +378,17 @@ def check_variants(ck, originals, variants, tag, report=True):
         v1 = verdict(fres[j])
         ck.case([v['kind'], v['sources']], True)
         ck.count('C-variant:' + v['kind'])
+        st = v.get('site') or {}
+        if v['kind'] in ('paren', 'block'):
+            ck.count('C-site:%s:%s/%s' % (v['kind'], st.get('k'), st.get('role')))
+        elif v['kind'] == 'annot-let':
+            ck.count('C-site:annot-let:%s-pattern' % st.get('pattern'))
+        elif v['kind'] == 'rename':
+            ck.count('C-site:rename:%s' % st.get('kind'))
+        elif v['kind'] == 'targs':
+            ck.count('C-site:targs:%s%s' % (st.get('kind'), '' if st.get('called') else '-not-called'))
+        if v['sources'] == p0['sources']:
+            ck.count('C-variant-identical-to-original:' + v['kind'])
         d = compare_verdicts(v0, v1)
         if d:
             fails.append((v, d, {'diagnostics': v0[0], 'compile': v0[1]}, {'diagnostics': v1[0], 'compile': v1[1],
@@ -406,29 +417,73 @@ def check_variants(ck, originals, variants, tag, report=True):
     return fails
 
 
-def shrink(ck, prog, sites, kind_family, rng, budget=40):
-    """Greedy: drop members / toplevels of the rewritten module while some variant of the same kind still fails."""
+def same_class(v, w):
+    """v is a rewrite of the same kind at the same kind of site as the failing rewrite w."""
+    if v['kind'] != w['kind']:
+        return False
+    a, b = v.get('site') or {}, w.get('site') or {}
+    if v['kind'] in ('paren', 'block'):
+        return a.get('k') == b.get('k') and a.get('role') == b.get('role')
+    if v['kind'] == 'annot-let':
+        return a.get('pattern') == b.get('pattern')
+    if v['kind'] == 'targs':
+        return a.get('kind') == b.get('kind') and a.get('called') == b.get('called')
+    if v['kind'] == 'rename':
+        return a.get('kind') == b.get('kind')
+    return True
+
+
+def class_variants(prog, info, failing):
+    vs = [v for v in rewrites.variants(prog, prog['module'], info['sites'], Rng(7), exhaustive=True) if same_class(v, failing)]
+    if len(vs) > 120:
+        vs = Rng(11).shuffle(vs)[:120]
+    return vs
+
+
+def _quiet_check():
+    sub = Check.__new__(Check)
+    sub.__dict__.update(evaluations=0, distinct=set(), distribution={}, samples=[])
+    return sub
+
+
+def reductions(prog, sites):
+    """Smaller candidates of the rewritten module: one toplevel, one member or one statement removed."""
+    tx = rewrites.Text(prog['sources'][prog['module']])
+    out = []
+    tops = sites['toplevels']
+    if len(tops) > 1:
+        sg = rewrites._segments(tx, [t['loc'] for t in tops])
+        if sg:
+            for i in range(len(tops)):
+                out.append((sg[0] + b'\n'.join(s for k, s in enumerate(sg[1]) if k != i) + sg[2]).decode())
+    for t in tops:
+        if len(t['members']) > 1:
+            ms = rewrites._segments(tx, [m['loc'] for m in t['members']])
+            if ms:
+                for i in range(len(t['members'])):
+                    out.append((ms[0] + b'\n'.join(s for k, s in enumerate(ms[1]) if k != i) + ms[2]).decode())
+    spans = [tx.span(l['loc']) for l in sites['lets']]
+    for e in sites['exprs']:
+        if e['role'] == 'stmt':
+            x = rewrites.extend_balanced(tx.b, *tx.span(e['loc']))
+            if x:
+                j = x[1]
+                while j < len(tx.b) and tx.b[j] in b' \t\r\n':
+                    j += 1
+                if j < len(tx.b) and tx.b[j] == 59:
+                    spans.append((x[0], j + 1))
+    for s0, e0 in spans:
+        out.append(rewrites.apply_edits(tx.b, [(s0, e0, b'', 0)]))
+    return out
+
+
+def shrink(prog, sites, failing, rounds=40):
+    """Greedy: drop toplevels / members / statements of the rewritten module while the original keeps its verdict
+    and some rewrite of the same family still fails."""
     cur, cur_sites = prog, sites
-    fam = lambda k: k.split('-')[0] if not k.startswith('annot') and k != 'targs' else 'annot'
-    steps = 0
-    progress = True
-    while progress and steps < budget:
-        progress = False
-        tx = rewrites.Text(cur['sources'][cur['module']])
-        cands = []
-        tops = cur_sites['toplevels']
-        if len(tops) > 1:
-            sg = rewrites._segments(tx, [t['loc'] for t in tops])
-            if sg:
-                for i in range(len(tops)):
-                    cands.append((sg[0] + b'\n'.join(s for k, s in enumerate(sg[1]) if k != i) + sg[2]).decode())
-        for t in tops:
-            if len(t['members']) > 1:
-                ms = rewrites._segments(tx, [m['loc'] for m in t['members']])
-                if ms:
-                    for i in range(len(t['members'])):
-                        cands.append((ms[0] + b'\n'.join(s for k, s in enumerate(ms[1]) if k != i) + ms[2]).decode())
-        cands = cands[:24]
+    v_orig = verdict(batch('front', front_jobs([cur]))[0])
+    for _ in range(rounds):
+        cands = reductions(cur, cur_sites)[:48]
         if not cands:
             break
         trial = []
@@ -439,27 +494,24 @@ def shrink(ck, prog, sites, kind_family, rng, budget=40):
             trial.append(q)
         infos = sites_of(trial)
         base = batch('front', front_jobs(trial))
-        v_orig = verdict(batch('front', front_jobs([cur]))[0])
+        originals, vs = {}, []
         for n, (q, info) in enumerate(zip(trial, infos)):
-            steps += 1
             if 'sites' not in info or info['syntax_errors']:
                 continue
             v0 = verdict(base[n])
             if bool(v0[0]) != bool(v_orig[0]) or v0[1] != v_orig[1]:
                 continue
-            vs = [v for v in rewrites.variants(q, q['module'], info['sites'], Rng(7), 60) if fam(v['kind']) == kind_family]
-            for v in vs:
-                v['orig'] = 0
-            if not vs:
-                continue
-            sub = Check.__new__(Check)
-            sub.__dict__.update(evaluations=0, distinct=set(), distribution={}, samples=[])
-            f = check_variants(sub, {0: (q, v0)}, vs, 'c13shrink')
-            if f:
-                cur, cur_sites = q, info['sites']
-                best = f[0]
-                progress = True
-                break
+            originals[n] = (q, v0)
+            mine = class_variants(q, info, failing)
+            for v in mine:
+                v['orig'] = n
+            vs += mine
+        if not vs:
+            break
+        bad_idx = sorted({v['orig'] for v, _, _, _ in check_variants(_quiet_check(), originals, vs, 'c13shrink')})
+        if not bad_idx:
+            break
+        cur, cur_sites = trial[bad_idx[0]], infos[bad_idx[0]]['sites']
     return cur
 
 
@@ -473,10 +525,18 @@ def report_failures(ck, fails, programs_by_key, sites_by_key, rng):
         if cls not in seen_classes and len(seen_classes) < 3 and v['orig'] in sites_by_key:
             seen_classes.add(cls)
             try:
-                fam = v['kind'].split('-')[0] if not v['kind'].startswith('annot') and v['kind'] != 'targs' else 'annot'
-                small = shrink(ck, p, sites_by_key[v['orig']], fam, rng)
+                small = shrink(p, sites_by_key[v['orig']], v)
                 if small is not p:
                     inp['shrunk_original'] = small['sources']
+                    sub_sites = sites_of([small])[0]
+                    sv = class_variants(small, sub_sites, v)
+                    for x in sv:
+                        x['orig'] = 0
+                    sf = check_variants(_quiet_check(), {0: (small, verdict(batch('front', front_jobs([small]), nproc=1)[0]))}, sv, 'c13shrink')
+                    if sf:
+                        inp['shrunk_rewritten'] = sf[0][0]['sources']
+                        inp['shrunk_site'] = sf[0][0]['site']
+                        inp['shrunk_failure'] = sf[0][1]
             except Exception as ex:      # shrinking is best effort
                 ck.notes.append('shrinking failed: %r' % (ex,))
         ck.property_failure('%s: %s' % (v['kind'], d), inp, expected=exp, observed=obs, how='./check C13 --replay <this file>')
@@ -485,10 +545,16 @@ def report_failures(ck, fails, programs_by_key, sites_by_key, rng):
 # the two classes of sites the generator avoids (gen/rewrites.py block_excluded), replayed as fixed witnesses
 WITNESSES = {
     'C13-method-value-generic-receiver': {
+        'defect': True, 'site_class': 'method-callee-on-generic-receiver',
         'what': 'a method of a generic class used as a value (`{ b.get }(2)` instead of `b.get(2)`) is accepted by the checker and panics the compiler (mir_generics_specialization.rs: unwrap on None)',
         'original': 'class B<T>(val x: T) { method get(d: int): T = this.x }\nclass Main { function main(): unit = { Process.println(Str.fromInt(B.init(1).get(2))); } }\n',
         'rewritten': 'class B<T>(val x: T) { method get(d: int): T = this.x }\nclass Main { function main(): unit = { Process.println(Str.fromInt({ B.init(1).get }(2))); } }\n'},
     'C13-block-generic-callee': {
+        # spec 6.7.1 / 6.7.2: `C.f(args)` and `e.m(args)` are call FORMS (the part before the parenthesis is not an
+        # expression position); `{ C.f }(args)` is a direct call (6.7.3) of a block whose value is a generic function
+        # reference with no context to infer its type arguments from (5.7: "explicit type argument required (no
+        # context)").  Recorded as a limitation of the rewrite, not as a failure, unless the coordinator lists it.
+        'defect': False, 'site_class': 'generic-member-callee',
         'what': 'wrapping the callee of a generic member call in a block (`{ Opt.Som }(3)`) makes an accepted program rejected (Underconstrained): the member reference is instantiated without the arguments',
         'original': 'class Opt<T>(Non, Som(T)) { method orElse(d: T): T = match this { Som(v) -> v, Non -> d } }\nclass Main { function main(): unit = { Process.println(Str.fromInt(Opt.Som(3).orElse(0))); } }\n',
         'rewritten': 'class Opt<T>(Non, Som(T)) { method orElse(d: T): T = match this { Som(v) -> v, Non -> d } }\nclass Main { function main(): unit = { Process.println(Str.fromInt({ Opt.Som }(3).orElse(0))); } }\n'},
@@ -505,16 +571,23 @@ def witnesses(ck):
         v0, v1 = verdict(res[2 * n]), verdict(res[2 * n + 1])
         d = compare_verdicts(v0, v1)
         ck.case(['witness', kid])
+        if d:
+            rewrites.EXCLUDED_BLOCK_CLASSES.add(w['site_class'])
+        else:
+            rewrites.EXCLUDED_BLOCK_CLASSES.discard(w['site_class'])     # repaired: the monitor covers these sites again
         registered = any(k['id'] == kid for k in ck.known)
         if registered:
             ck.known_witness(kid, bool(d), d or 'verdicts agree')
+        elif d and not w['defect']:
+            ck.count('C-excluded-site-class-still-differs:' + kid)
+            ck.notes.append('excluded site class %s (not counted as a failure, see WITNESSES in checks/c13.py): %s' % (kid, d))
         elif d:
             ck.property_failure('block: %s [%s]' % (d, kid), {'rewrite': 'block', 'original': {'Main': w['original']},
                                 'rewritten': {'Main': w['rewritten']}, 'entry': 'Main', 'module': 'Main', 'class': kid, 'what': w['what']},
                                 expected={'diagnostics': v0[0], 'compile': v0[1]}, observed={'diagnostics': v1[0], 'compile': v1[1]},
                                 how='./check C13 --replay <this file>')
         else:
-            ck.notes.append('witness %s no longer fails: remove the exclusion in gen/rewrites.py block_excluded' % kid)
+            ck.notes.append('witness %s no longer fails: its site class is rewritten by the monitor again' % kid)
 
 
 def monitor(ck, programs, rng, cap, tag):
